@@ -24,6 +24,11 @@ class InjectedFault(sqlite3.OperationalError):
     """The error the harness injects at the chosen statement."""
 
 
+class InjectedRuntimeError(RuntimeError):
+    """A failure that is not a database error (a bug, a full disk seen by
+    Python, an assertion): the step 'fails' all the same."""
+
+
 class SimulatedKill(BaseException):
     """Unwinds the step after the snapshot was taken (the snapshot, not
     the unwound process, is the state under test)."""
@@ -32,8 +37,10 @@ class SimulatedKill(BaseException):
 class Plan:
     """What to do at which statement; also the log of what happened."""
 
-    def __init__(self, mode='count', k=None, snapshot_dir=None):
+    def __init__(self, mode='count', k=None, snapshot_dir=None,
+                 exception='sqlite'):
         self.mode = mode          # 'count' | 'fault' | 'kill'
+        self.exception = exception  # 'sqlite' | 'runtime' | 'interrupt'
         self.k = k
         self.snapshot_dir = snapshot_dir
         self.count = 0
@@ -53,8 +60,12 @@ class Plan:
         if self.k is not None and self.count == self.k and not self.fired:
             self.fired = True
             if self.mode == 'fault':
-                raise InjectedFault('injected fault at statement {}'.format(
-                    self.k))
+                message = 'injected fault at statement {}'.format(self.k)
+                if self.exception == 'runtime':
+                    raise InjectedRuntimeError(message)
+                if self.exception == 'interrupt':
+                    raise KeyboardInterrupt(message)
+                raise InjectedFault(message)
             if self.mode == 'kill':
                 snapshot(self.db_path, self.snapshot_dir)
                 raise SimulatedKill()
